@@ -21,7 +21,7 @@ func init() { core.Register(c01{}) }
 func (c01) ID() string    { return "C01" }
 func (c01) Level() string { return "exploration" }
 func (c01) Rule() string {
-	return "seeded random dependency graphs over the palette (cycles of length 2..n, chords, diamonds, fan-in through by-type and qualified slices, by-name pointer/interface/any edges, by-type edges), each started under 3 (quick) / 5 (thorough) registration orders x registry enumeration orders x candidate orders; plus every digraph on 3 nodes (thorough: also 4 nodes) under every assignment of name ranks. Oracle: every injected value is pointer-identical to a registered instance, equals GetComponentByName of its name, all holders of a name agree, GetComponents agrees, every early-reference factory produced at most one reference per creation. non-trivial = successful start whose by-name graph has a cycle or a diamond; distinct = canonical graph signature + registry trace shape; graphs with failing leaves (permanent / once) reached through swallowed Init lookups, with and without the substituting post-processor: identity is judged for published holders only; locator leaves (no injection point, Init looks up the component wired with them) and concrete-typed points at components replaced by another type; objects handed to lookups issued from inside callbacks count as seen objects; components wired into a post-processor (partial chain) stay one singleton; lookups under unregistered type names fail or alias a published instance; bulkLazy family (lazy components sharing a lazy, possibly decorated dependency fetched by one GetComponents listing); every name is also listed through GetComponents (by-name option) twice and must yield exactly the published object; same-type substitutes that name themselves"
+	return "seeded random dependency graphs over the palette (cycles of length 2..n, chords, diamonds, fan-in through by-type and qualified slices, by-name pointer/interface/any edges, by-type edges), each started under 3 (quick) / 5 (thorough) registration orders x registry enumeration orders x candidate orders; plus every digraph on 3 nodes (thorough: also 4 nodes) under every assignment of name ranks. Oracle: every injected value is pointer-identical to a registered instance, equals GetComponentByName of its name, all holders of a name agree, GetComponents agrees, every early-reference factory produced at most one reference per creation. non-trivial = successful start whose by-name graph has a cycle or a diamond; distinct = canonical graph signature + registry trace shape; graphs with failing leaves (permanent / once) reached through swallowed Init lookups, with and without the substituting post-processor: identity is judged for published holders only; locator leaves (no injection point, Init looks up the component wired with them) and concrete-typed points at components replaced by another type; objects handed to lookups issued from inside callbacks count as seen objects; components wired into a post-processor (partial chain) stay one singleton; lookups under unregistered type names fail or alias a published instance; bulkLazy family (lazy components sharing a lazy, possibly decorated dependency fetched by one GetComponents listing); every name is also listed through GetComponents (by-name option) twice and must yield exactly the published object; same-type substitutes that name themselves; post-processor-dependency family closing a cycle under a priority-ordered early substituter; concretePartner family (a cycle partner declaring the entry's concrete type while the entry is wrapped by another type); sharedSettings family (wire points whose type announces a configuration prefix all hold the registered instance)"
 }
 func (c01) Assumptions() []string {
 	return []string{
